@@ -21,7 +21,7 @@ Notation next_input := (Server.next_input decomp decode).
 
 (* 1. isolation.  (a) Nothing a client does, and nothing the server does on behalf of that client -- accepting it, serving,
       failing, dropping it -- changes the record (service instance, table, buffers, replies) of any OTHER connection. *)
-Theorem c16_isolation_noninterference : forall s e s', kind K <> OneShot -> e <> EClose -> step e s = Some s' ->
+Theorem c16_isolation_noninterference : forall s e s', kind K <> OneShot -> e <> EClose -> e <> EAcceptFail -> step e s = Some s' ->
   forall x, subject s e <> Some x -> conns s' x = conns s x.
 Proof. exact (noninterference decomp decode K). Qed.
 (*    (b) With a service class registered, a connection's service instance, table and replies are a function of the
@@ -43,11 +43,15 @@ Theorem c16_foreign_id_never_resolves : forall s, class_svc K = true -> reach s 
 Proof. exact (foreign_id_never_resolves decomp decode K). Qed.
 
 (* 2. confinement (threaded and forking servers; the one-shot server for its single client).
-      (a) Whatever the clients did, as long as nobody called close() the accept loop takes the next queued connection. *)
+      (a) Whatever the clients did, as long as nobody called close() the accept loop takes the next queued connection --
+      provided accept() itself did not fail with an OS error ([EAcceptFail]: descriptor limit reached, connection aborted), or the
+      tree's accept loop survives such errors (fact accept_survives_oserror).  On a tree that does not, see
+      c16_accept_error_refuted: the accept loop ends and start() closes the server, throwing every client out. *)
 Theorem c16_accept_stays_enabled : forall l s, kind K = Threaded \/ kind K = Forking -> reach_by l s -> ~ In EClose l ->
+  (Server.accept_survives_oserror (fx K) = true \/ ~ In EAcceptFail l) ->
   backlog s <> [] -> exists s', step EAccept s = Some s'.
 Proof.
-  intros l s Hk R Nc Hb. apply (accept_stays_enabled decomp decode K l s); auto.
+  intros l s Hk R Nc Nf Hb. apply (accept_stays_enabled decomp decode K l s); auto.
   - destruct Hk; congruence.
   - apply (threaded_forking_never_busy decomp decode K s Hk). now exists l.
 Qed.
@@ -58,18 +62,23 @@ Theorem c16_good_client_served : forall s c q rest,
   exists s', step (EWork c) s = Some s' /\ out (conns s' c) = out (conns s c) ++ [reply_of K s c q]
              /\ (is_close q = false -> stg (conns s' c) = Own /\ shut (conns s' c) = false /\ inb (conns s' c) = rest).
 Proof. exact (own_worker_serves decomp decode K). Qed.
-(*    (c) A worker's failure is confined to its connection: that is 1(a) for [EWork c], and the bookkeeping stays consistent
-      (all invariants of C17 hold after every step, whatever was sent). *)
-Theorem c16_worker_failure_confined : forall s c s', kind K <> OneShot -> reach s -> step (EWork c) s = Some s' ->
-  (forall x, x <> c -> conns s' x = conns s x) /\ reach s'.
-Proof.
-  intros s c s' Nk [l R] H. split.
-  - intros x Nx. apply (noninterference decomp decode K s (EWork c) s' Nk); [discriminate|exact H|]. cbn. congruence.
-  - exists (l ++ [EWork c]). econstructor; eassumption.
-Qed.
+(*    (2(b) is one unfolding of the worker's step function: its content is that the step has NO hypothesis about other connections.)
+      (c) A worker's failure -- a frame that raises, or one that ends in a BaseException -- is confined to its connection: that
+      connection is closed, its hook runs (once), its socket is shut down and leaves Server.clients; the server stays active and
+      every other connection's record is untouched. *)
+Theorem c16_worker_failure_confined : forall s c rest, kind K <> OneShot -> reach s ->
+  stg (conns s c) = Own -> authd (conns s c) = true -> shut (conns s c) = false ->
+  (next_input (inb (conns s c)) = NBad rest \/ next_input (inb (conns s c)) = NKill rest) ->
+  exists s', step (EWork c) s = Some s'
+    /\ stg (conns s' c) = Finished /\ hooks (conns s' c) = 1 /\ shut (conns s' c) = true /\ cclosed (conns s' c) = true
+    /\ clients s' = rm c (clients s) /\ active s' = active s /\ (forall x, x <> c -> conns s' x = conns s x).
+Proof. exact (own_worker_failure decomp decode K). Qed.
 
 (* 3. the thread pool.  Wherever a connection with a complete request is, its next step is enabled -- except when it waits
       in the active queue and no worker is free.
+      [NReq] is a message the worker can process without waiting for the client again; a complete message that makes the server
+      wait for THIS client (a nested request it never answers, a reply it never reads) is [NStall]: the worker blocks on it exactly as on
+      an unfinished frame, and F7's witness applies to it unchanged.
       FULL STATEMENT (c16_pool_liveness): every well-behaved client with a pending request is eventually served under any
       fair scheduling of the server's threads.  It is FALSE on this tree (finding F7): see the refutation below. *)
 Theorem c16_pool_liveness_partial : forall s c q rest, kind K = Pool -> active s = true -> mem c (fdmap s) = true ->
@@ -97,6 +106,15 @@ Print Assumptions c16_good_client_served.
 Print Assumptions c16_worker_failure_confined.
 Print Assumptions c16_pool_liveness_partial.
 Print Assumptions c16_no_worker_dies.
+
+(* Refutation of 2(a) on a tree whose accept loop does not survive an OS error of accept(): one served client, then accept() fails
+   (EMFILE): the server is closed although nobody called close(), and the client has been thrown out. *)
+Theorem c16_accept_error_refuted : forall decomp decode K, kind K = Threaded -> has_auth K = false ->
+  Server.accept_survives_oserror (fx K) = false ->
+  exists s, exec decomp decode K [EConnect 1 AuthOk; EAccept; EWork 1; EAcceptFail] (init K) = Some s
+    /\ closed s = true /\ active s = false /\ shut (conns s 1) = true /\ authd (conns s 1) = true /\ gone (conns s 1) = false.
+Proof. exact accept_error_refuted. Qed.
+Print Assumptions c16_accept_error_refuted.
 
 (* Refutation of pool liveness (F7): nbThreads = 2, two clients that sent a truncated frame (header promises 10 bytes) and stay
    connected, one well-behaved client with a complete request.  Both workers sit in Channel.recv; the good client's
@@ -147,7 +165,7 @@ Print Assumptions c16_pool_worker_survives_when_caught.
 
 (* The model is the one the current source was translated to. *)
 Theorem c16_program_is_current :
-  Gen_server.accept_prog = Server.accept_prog /\ Gen_server.worker_prog = Server.worker_prog
+  Gen_server.accept_prog = Server.accept_prog_of Gen_server.accept_survives_oserror Gen_server.accept_rechecks_closed /\ Gen_server.worker_prog = Server.worker_prog_of Gen_server.worker_tracks_served
   /\ Gen_server.serve_client_prog = Server.serve_client_prog /\ Gen_server.handle_prog = Server.handle_prog
   /\ Gen_server.threaded_prog = Server.threaded_prog /\ Gen_server.forking_prog = Server.forking_prog
   /\ Gen_server.pool_accept_prog = Server.pool_accept_prog_of Gen_server.pool_fail_discards
@@ -164,8 +182,9 @@ Print Assumptions c16_program_is_current.
 
 (* ---- non-vacuity ---- *)
 Definition KT16 (k : skind) (cls : bool) : cfg :=
-  {| kind := k; fx := {| Server.pool_close_drops := true; Server.pool_fail_discards := true; Server.fork_parent_keeps := false; Server.pool_catches_base := false |};
-     has_auth := false; class_svc := cls; nworkers := 2; batch := 10 |}.
+  {| kind := k; fx := {| Server.pool_close_drops := true; Server.pool_fail_discards := true; Server.fork_parent_keeps := false; Server.pool_catches_base := false;
+             Server.worker_tracks_served := false; Server.accept_survives_oserror := false; Server.accept_rechecks_closed := false |};
+     has_auth := false; class_svc := cls; nworkers := 2; batch := 10; auth_replaces := false |}.
 Definition d16 (b : list byte) : option req :=
   if bytes_eqb b [x51] then Some QRoot else if bytes_eqb b [x52] then Some (QMake (1, 0)) else if bytes_eqb b [x53] then Some (QStr (1, 1)) else None.
 Definition fr (p : byte) : list byte := [x00; x00; x00; x01; x00; p; x0a].
